@@ -96,6 +96,7 @@ class UEval:
         self.depth = depth
         self.compares = []                       # (node, left Q, right Q)
         self.self_seeds = self_seeds or {}
+        self.stored = {}                         # dataset variable / coordinate name -> Q assigned by the function
 
     # ---- problems --------------------------------------------------------------------------------
     def prob(self, kind, node, msg):
@@ -113,8 +114,14 @@ class UEval:
     def stmt(self, s):
         if isinstance(s, ast.Assign):
             v = self.ev(s.value)
+            c = self.const(s.value)
             for t in s.targets:
                 self.assign(t, v)
+                if isinstance(t, ast.Name):
+                    if isinstance(c, (int, float, str, bool)) or c is None:
+                        self.consts[t.id] = c
+                    else:
+                        self.consts.pop(t.id, None)
         elif isinstance(s, ast.AugAssign):
             cur = self.ev(s.target) if isinstance(s.target, ast.Name) else None
             v = self.ev(s.value)
@@ -189,7 +196,11 @@ class UEval:
         elif isinstance(t, (ast.Tuple, ast.List)):
             for i, e in enumerate(t.elts):
                 self.assign(e, v[i] if isinstance(v, tuple) and i < len(v) else None)
-        # attribute / subscript stores (name, attrs, coords) do not change the value type
+        elif isinstance(t, ast.Subscript):
+            k = self.const(t.slice)
+            if isinstance(k, str):
+                self.stored[k] = v
+        # attribute stores (name, attrs) do not change the value type
 
     # ---- constants -------------------------------------------------------------------------------
     def const(self, e):
@@ -257,7 +268,55 @@ class UEval:
         return Q(dims=dims)
 
     def ev_BinOp(self, e):
+        if isinstance(e.op, (ast.Mult, ast.Div)):
+            r = self._product_chain(e)
+            if r is not NotImplemented:
+                return r
         return self.binop(type(e.op), self.ev(e.left), self.ev(e.right), e)
+
+    def _product_chain(self, e):
+        """Fold the plain numeric factors (numbers, pi) of a product/quotient chain: pi/180 is a degree->radian factor
+        however it is spelled (x * np.pi / 180, x / (180 / np.pi), D2R * x)."""
+        fac = []
+
+        def flat(x, sign):
+            if isinstance(x, ast.BinOp) and isinstance(x.op, ast.Mult):
+                flat(x.left, sign)
+                flat(x.right, sign)
+            elif isinstance(x, ast.BinOp) and isinstance(x.op, ast.Div):
+                flat(x.left, sign)
+                flat(x.right, -sign)
+            else:
+                fac.append((x, sign))
+        flat(e, 1)
+        plain, rest = 1.0, []
+        nplain = 0
+        for x, sgn in fac:
+            c = self.const(x)
+            is_plain = isinstance(c, (int, float)) and not isinstance(c, bool) and (
+                isinstance(x, ast.Constant) or unparse(x) in ("np.pi", "pi", "numpy.pi", "math.pi")) and \
+                not (self.table and isinstance(x, ast.Constant) and self.table.dimensioned_literal(self.fi, x.value))
+            if is_plain and c != 0:
+                plain = plain * c if sgn > 0 else plain / c
+                nplain += 1
+            else:
+                rest.append((x, sgn))
+        if nplain < 2:
+            return NotImplemented
+        conv = None
+        if abs(plain - 0.017453292519943295) < 1e-12:
+            conv = Q({"deg": -1})
+        elif abs(plain - 57.29577951308232) < 1e-9:
+            conv = Q({"deg": 1})
+        if conv is None:
+            return NotImplemented
+        out = conv
+        for x, sgn in rest:
+            v = self.ev(x)
+            out = self.binop(ast.Mult if sgn > 0 else ast.Div, out, v, e) if sgn > 0 else self.binop(ast.Div, out, v, e)
+            if out is None:
+                return None
+        return out
 
     def binop(self, op, a, b, node):
         if not isinstance(a, Q) or not isinstance(b, Q):
@@ -270,11 +329,21 @@ class UEval:
             for x, y in ((a, b), (b, a)):
                 if x.ang and not y.ang and (y.lit or (y.u["m"] == 0 and y.u["s"] == 0 and not y.dims)):
                     ang = dict(x.ang)       # scaling by a unit-conversion constant keeps convention and range
+                    if y.u["deg"] == 1:
+                        ang["rad"] = False
+                    elif y.u["deg"] == -1:
+                        ang["rad"] = True
             return Q({k: a.u[k] + b.u[k] for k in BASE}, _add(a.h, b.h), dims, ang=ang, lit=a.lit and b.lit)
         if op in (ast.Div, ast.FloorDiv):
             ang = dict(a.ang) if a.ang and not b.ang and (b.lit or (b.u["m"] == 0 and b.u["s"] == 0 and not b.dims)) else None
+            if ang is not None and b.u["deg"] == -1:
+                ang["rad"] = False
+            elif ang is not None and b.u["deg"] == 1:
+                ang["rad"] = True
             return Q({k: a.u[k] - b.u[k] for k in BASE}, _sub(a.h, b.h), dims, ang=ang, lit=a.lit and b.lit)
         if op is ast.Pow:
+            if b.log and a.lit:
+                return Q(b.u, Fr(1), dims)      # 10 ** log10(x)
             n = self._num(node.right) if isinstance(node, ast.BinOp) else None
             if n is None:
                 if a.dimless() and (a.h == 0):
@@ -559,7 +628,19 @@ class UEval:
                 self.prob("log", e, "fillna() on a logarithmic quantity: the fill value is an exponent, 0 means 1 unit of energy, not zero energy")
             return q
         if m in ("clip",):
+            self.prob("clip", e, f"clip() truncates {unparse(e.func.value)[:40]}")
             return q.copy(note="clipped")
+        if m == "assign_coords":
+            for a_ in list(e.args) + [k.value for k in e.keywords if k.arg is None]:
+                if isinstance(a_, ast.Dict):
+                    for kk, vv in zip(a_.keys, a_.values):
+                        key = self.const(kk) if kk is not None else None
+                        if isinstance(key, str):
+                            self.stored[key] = self.ev(vv)
+            for k in e.keywords:
+                if k.arg is not None:
+                    self.stored[k.arg] = self.ev(k.value)
+            return q
         if m in ("rename", "drop_vars", "astype", "chunk", "copy", "load", "compute", "transpose", "squeeze", "expand_dims", "round",
                  "assign_coords", "sortby", "sel", "reset_coords", "to_dataset", "rolling", "interp", "persist", "pipe", "notnull", "isnull"):
             if m in ("isel", "sel"):
